@@ -370,6 +370,10 @@ def run(tier, procs=None, only=None):
     )
 
 
+# every real-library oracle of this property (each returns (reproduced, detail)); used to confirm structural facts that carry no replay of their own
+ALL_REPLAYS = [replay_io]
+
+
 def replay(data):
     ok, detail = replay_io(data.get("cex") or {})
     print("replay:", detail)
